@@ -26,7 +26,7 @@ PROBES = {"C12": ["fit_input_checked", "apply_input_checked", "twin_compared", "
                   "dataframe_series_input", "int_index_input",
                   "triggering_condition_present", "refit_compared_with_fresh", "interloper_ran",
                   "repeat_compared_with_first", "longer_series_than_in_fit",
-                  "reconfigured_refit_compared_with_fresh"]}
+                  "reconfigured_refit_compared_with_fresh", "update_input_checked"]}
 FAULT_KINDS = {"C12": ["schedule_ooo", "schedule_interleave", "pickle_roundtrip", "repeat_call",
                        "other_instance_interleaved"]}
 RULE = {"C12": (
@@ -98,6 +98,14 @@ def generate(prop, rng, tier):
     if cat == "forecaster":
         spec = C.gen_forecaster(rng, depth=rng.choice([0, 0, 1, 2]), allow_slow=rng.random() < 0.25)
         r1 = rng.random()
+        if r1 > 0.95:
+            # a tuned forecaster: its candidates are evaluated by parallel tasks
+            spec = {"kind": "gscv", "forecaster": {"kind": "naive", "strategy": "last", "sp": 1,
+                                                   "window_length": None},
+                    "cv": {"type": "sliding", "window": rng.choice([4, 5, 6]), "step": rng.choice([1, 2, 3]),
+                           "fh": [1, 2]},
+                    "grid": {"strategy": ["last", "mean", "drift"], "window_length": [3, 4]},
+                    "n_jobs": rng.choice([2, 3, 4]), "refit": True}
         if r1 < 0.08:
             spec = {"kind": "theta", "sp": rng.choice([2, 4]), "deseasonalize": True}
         elif r1 < 0.2:
@@ -372,7 +380,7 @@ def _set_n_jobs(spec, n_jobs):
 
     def walk(x):
         if isinstance(x, dict):
-            if x.get("kind") in ("ensemble", "stack"):
+            if x.get("kind") in ("ensemble", "stack", "gscv"):
                 x["n_jobs"] = n_jobs
             for v in x.values():
                 walk(v)
@@ -666,6 +674,29 @@ def execute(prop, scen):
                 break
         digest.update(_short(r).encode())
         res.states.add(short_hash([label, c["m"], i]))
+    # ---- an update with revised values for time points already seen: neither the batch nor
+    # the series handed to fit earlier (which the forecaster may still hold) is modified
+    if cat == "forecaster" and not res.violations:
+        n_ = scen["n"]
+        for lo, hi in ((n_ - 4, n_ - 1), (n_ - 2, n_ + 1)):
+            b_ = y.iloc[lo:hi].copy() + 1.5
+            bsnap = snapshot(b_)
+            try:
+                with sched.scenario_schedule(sched.Scheduler("fifo", 0)):
+                    est.update(b_, update_params=scen.get("variant_seed", 0) % 2 == 0)
+            except Exception as e:  # noqa
+                digest.update(("update:%s" % type(e).__name__).encode())
+                break
+            res.probe("update_input_checked")
+            if snapshot(b_) != bsnap:
+                v("input_mutated", "update modified the caller's batch", method="update",
+                  container="series")
+                break
+            if snapshot(args) != snap:
+                v("fit_mutates_input", "update modified the series the caller had passed to fit "
+                  "earlier: %s" % _what_changed(snap, snapshot(args)), method="update",
+                  container="series")
+                break
     # ---- the much-used object fitted again on other data == a fresh equal estimator fitted
     # on that data (nothing of the first fit may survive)
     if scen.get("refit_check", True) and not res.violations:
